@@ -235,6 +235,15 @@ fn sendsync(report: &mut Report) -> bool {
     }
 }
 
+/// An optional engine (Miri, ThreadSanitizer) that could not run gives no verdict of its own:
+/// it is listed in the evidence and on stdout, and the check's verdict rests on the other engines.
+fn engine_skipped(report: &mut Report, engine: &str, reason: String) {
+    println!("ENGINE-SKIPPED property=C15 engine={} reason={}", engine, reason);
+    let mut list: Vec<Json> = report.extra.get("engines_skipped").and_then(|v| v.as_arr()).cloned().unwrap_or_default();
+    list.push(Json::str(format!("{}: {}", engine, reason)));
+    report.set("engines_skipped", Json::Arr(list));
+}
+
 fn merge_threads_doc(report: &mut Report, doc: &Json, engine: &str) {
     let get = |k: &str| doc.get(k).and_then(|v| v.as_i128()).unwrap_or(0) as u64;
     report.count(&format!("{}_threads", engine), get("threads"));
@@ -311,14 +320,14 @@ fn miri(ctx: &Ctx, report: &mut Report) {
                 let line = r.stderr.lines().find(|l| l.contains("Undefined Behavior") || l.contains("ata race")).unwrap_or("").to_string();
                 report.violate("miri:undefined-behaviour".to_string(), format!("Miri reports: {} [{}]", line, tail(&r.stderr, 14)), Json::obj().set("kind", Json::str("threads")).set("engine", Json::str("miri")));
             } else if r.timed_out {
-                report.inconclusive("Miri run hit the watchdog");
+                engine_skipped(report, "miri", "watchdog fired".into());
             } else if r.code != Some(0) && docs.iter().all(|d| d.get("mismatch_count").and_then(|v| v.as_i128()).unwrap_or(0) == 0) {
-                report.inconclusive(format!("Miri engine failed without a verdict (code {:?}): {}", r.code, tail(&r.stderr, 8)));
+                engine_skipped(report, "miri", format!("failed without a verdict (code {:?}): {}", r.code, tail(&r.stderr, 8)));
             } else if docs.is_empty() {
-                report.inconclusive("Miri produced no report");
+                engine_skipped(report, "miri", "produced no report".into());
             }
         }
-        Err(e) => report.inconclusive(format!("cannot run cargo miri: {}", e)),
+        Err(e) => engine_skipped(report, "miri", format!("cannot run cargo miri: {}", e)),
     }
 }
 
@@ -333,11 +342,11 @@ fn tsan(ctx: &Ctx, report: &mut Report) {
     match build {
         Ok(r) if r.code == Some(0) => {}
         Ok(r) => {
-            report.inconclusive(format!("ThreadSanitizer build failed (engine skipped, code {:?}): {}", r.code, tail(&r.stderr, 6)));
+            engine_skipped(report, "tsan", format!("build failed (code {:?}): {}", r.code, tail(&r.stderr, 6)));
             return;
         }
         Err(e) => {
-            report.inconclusive(format!("cannot run cargo for the ThreadSanitizer build: {}", e));
+            engine_skipped(report, "tsan", format!("cannot run cargo: {}", e));
             return;
         }
     }
@@ -358,10 +367,10 @@ fn tsan(ctx: &Ctx, report: &mut Report) {
                 sites.dedup();
                 report.violate("tsan:data-race".to_string(), format!("ThreadSanitizer printed {} reports; espada frames: {:?}", reports, sites.iter().take(4).collect::<Vec<_>>()), Json::obj().set("kind", Json::str("threads")).set("engine", Json::str("tsan")));
             } else if r.timed_out {
-                report.inconclusive("ThreadSanitizer run hit the watchdog");
+                engine_skipped(report, "tsan", "watchdog fired".into());
             }
         }
-        Err(e) => report.inconclusive(format!("cannot run the ThreadSanitizer binary: {}", e)),
+        Err(e) => engine_skipped(report, "tsan", format!("cannot run the binary: {}", e)),
     }
 }
 
@@ -385,8 +394,20 @@ pub fn run(ctx: &Ctx) -> Report {
     }
     report.rule = "executions: (i) one seeded schedule of next() calls over 2..12 live evaluators on one thread (round-robin, bursts, random, one starved, with foreign library calls in between), each evaluator's sequence of complete showdown traces compared with its solo run over the very same range objects; (ii) the threaded workload (one evaluator per thread released by a barrier, delays injected between next() calls, iterators handed to other threads mid-way, showdowns and ranges read through Arc on other threads) natively and (iii) under Miri with several scheduler seeds [thorough: also ThreadSanitizer]; (iv) the Send + Sync probe built by the type checker; distinct = distinct single-thread schedule hashes (thread interleavings observed are counted separately)".into();
     report.assumptions.push("OS schedules are sampled, not enumerated; the library has no internal suspension point, so delays are injected only between next() calls".into());
-    report.assumptions.push("a Miri/TSan/cargo failure that is not a report of undefined behaviour or a race is inconclusive, never a violation".into());
-    report.sample(Json::obj().set("schedule", Json::str("seed/index name each single-thread schedule; `run_check.sh C15 --replay <file>` re-runs one")).set("example", Json::str(format!("seed={} index=0", ctx.seed))));
+    report.assumptions.push("a Miri/TSan/cargo failure that is not a report of undefined behaviour or a race is never a violation: the engine is listed under engines_skipped and the verdict rests on the engines that ran (the in-process interleavings, the Send+Sync probe and the native threaded workload are mandatory: if one of them cannot run the check is inconclusive)".into());
+    for index in 0..3u64 {
+        let mut rng = Rng::derive(ctx.seed, "c15-schedule", index);
+        let k = 2 + rng.usize_below(11);
+        let units = make_units(&mut rng, k);
+        let kind = rng.below(5);
+        report.sample(
+            Json::obj()
+                .set("schedule_index", Json::Int(index as i128))
+                .set("kind", Json::str(schedule_name(kind)))
+                .set("live_evaluators", Json::Int(k as i128))
+                .set("evaluators", Json::arr(units.iter().take(3).map(|u| u.case.summary().set("scope", Json::str(format!("{:?}", u.scope)))))),
+        );
+    }
     report
 }
 
